@@ -1115,6 +1115,11 @@ class Interp:
         if ty == 'extmethod':
             self.emit('extmethod', n, recv=func.recv, name=func.name, args=args, kwargs=kwargs)
             return self.model.call_method(self, st, func.recv, func.name, args, kwargs, n, frame)
+        if ty == 'partial':
+            # functools.partial(f, *a, **k)(*b, **l) == f(*a, *b, **{**k, **l})
+            kw = dict(func.pkwargs or {})
+            kw.update(kwargs)
+            return self.call_value(func.target, list(func.pargs or []) + list(args), kw, frame, st, n)
         if ty == 'lambda':
             return self.call_lambda(func, args, kwargs, st, n)
         if ty == 'builtin':
